@@ -645,7 +645,6 @@ func runConc(w *world, in *input) lib.Case {
 		o   outc
 	}
 	var mu sync.Mutex
-	var during []ld
 	var wg sync.WaitGroup
 	stop := make(chan struct{})
 	crashed := ""
@@ -655,8 +654,13 @@ func runConc(w *world, in *input) lib.Case {
 		id := fmt.Sprintf("%d/%v/%d", x.svc, x.key, i%in.Writers)
 		chunks[id] = append(chunks[id], x)
 	}
-	for _, ch := range chunks {
-		ch := ch
+	var chunkIDs []string
+	for id := range chunks {
+		chunkIDs = append(chunkIDs, id)
+	}
+	sort.Strings(chunkIDs)
+	for _, id := range chunkIDs {
+		ch := chunks[id]
 		wg.Add(1)
 		go func() {
 			defer wg.Done()
@@ -671,13 +675,17 @@ func runConc(w *world, in *input) lib.Case {
 		}()
 	}
 	var lg sync.WaitGroup
+	// one loader thread per (service, key); its answers are kept IN ORDER
+	var loaders [][]ld
 	for s := range in.Names {
 		for _, k := range in.Keys {
 			s, k := s, k
+			li := len(loaders)
+			loaders = append(loaders, nil)
 			lg.Add(1)
 			go func() {
 				defer lg.Done()
-				for i := 0; i < 40; i++ {
+				for i := 0; i < 60; i++ {
 					select {
 					case <-stop:
 						return
@@ -689,7 +697,7 @@ func runConc(w *world, in *input) lib.Case {
 					}
 					o := doOp(ctx(in.Names[s]), opIn{Kind: kind, Key: k})
 					mu.Lock()
-					during = append(during, ld{s, k, o})
+					loaders[li] = append(loaders[li], ld{s, k, o})
 					mu.Unlock()
 				}
 			}()
@@ -700,7 +708,7 @@ func runConc(w *world, in *input) lib.Case {
 	lg.Wait()
 	if crashed != "" {
 		// a failed save under concurrency is reported as a bogus answer
-		during = append(during, ld{0, in.Keys[0], outc{K: "err", Msg: crashed}})
+		loaders[0] = append(loaders[0], ld{0, in.Keys[0], outc{K: "err", Msg: crashed}})
 	}
 	var after []ld
 	for s := range in.Names {
@@ -714,19 +722,30 @@ func runConc(w *world, in *input) lib.Case {
 		k := []int{250, 251}
 		after = append(after, ld{s, k, doOp(ctx(in.Names[s]), opIn{Kind: "load", Key: k})})
 	}
-	// dedupe the during-observations (they repeat a lot)
-	seen := map[string]bool{}
+	// consecutive repetitions of an answer carry no information: collapsed, order kept
 	var dl []string
-	for _, d := range during {
-		t := fmt.Sprintf("(%d, %s, %s)", d.svc, bytesLit(d.key), d.o.coq())
-		if !seen[t] {
-			seen[t] = true
-			dl = append(dl, t)
+	nd := 0
+	for _, l := range loaders {
+		var items []string
+		prev := ""
+		for _, d := range l {
+			t := fmt.Sprintf("(%d, %s, %s)", d.svc, bytesLit(d.key), d.o.coq())
+			if t != prev {
+				items = append(items, t)
+				prev = t
+			}
 		}
+		nd += len(items)
+		dl = append(dl, lib.List(items))
 	}
-	wl := make([]string, len(writes))
-	for i, x := range writes {
-		wl[i] = fmt.Sprintf("(%d, %s, %s)", x.svc, bytesLit(x.key), bytesLit(valBytes[x.val]))
+	// one list per saver thread, in the order the thread saved
+	var wl []string
+	for _, id := range chunkIDs {
+		var items []string
+		for _, x := range chunks[id] {
+			items = append(items, fmt.Sprintf("(%d, %s, %s)", x.svc, bytesLit(x.key), bytesLit(valBytes[x.val])))
+		}
+		wl = append(wl, lib.List(items))
 	}
 	al := make([]string, len(after))
 	obs := []string{}
@@ -735,7 +754,7 @@ func runConc(w *world, in *input) lib.Case {
 		obs = append(obs, a.o.K)
 	}
 	coq := fmt.Sprintf("CConc %s %s %s %s", namesLit(in.Names), lib.List(wl), lib.List(dl), lib.List(al))
-	return lib.Case{Coq: coq, Class: in.Class, Obs: map[string]interface{}{"after": obs, "during_distinct": len(dl)}, Nontrivial: true,
+	return lib.Case{Coq: coq, Class: in.Class, Obs: map[string]interface{}{"after": obs, "during_answers_in_order": nd}, Nontrivial: true,
 		Key: fmt.Sprintf("conc-%d-%d-%d-%d", len(in.Names), len(in.Keys), in.Writers, in.PerW) + fmt.Sprint(obs)}
 }
 
